@@ -486,15 +486,15 @@ PROPS["C05"] = Prop(
     "C05", _collect("C05"),
     explanation="Per backend: pie_wrap_key->pie_unwrap_key, pw_wrap_key->pw_unwrap_key (default parameters and every parameter block the backend's parser yields) and seal_key->unseal_key over ideal primitives with wrapping key, password, wrapped key bytes and RNG output symbolic: the operation succeeds, the output has exactly the length the format prescribes, and undoing it returns the same bytes.",
     functions=["<backend>::core::pie_wrap::{pie_wrap_key, pie_unwrap_key}", "<backend>::core::pw_wrap::{pw_wrap_key, pw_unwrap_key, get_params, Params::pbkdf}", "<backend>::core::pke::{seal_key, unseal_key}"],
-    bounds={"quick": "PIE local key (32 B), PBKW local with default parameters and a 2-byte password, PKE to a generated recipient",
-            "thorough": "adds secret keys (48/64 B), empty password, symbolic parameter blocks"},
+    bounds={"quick": "v4, v2: PIE local key (32 B); v4: PKE to a generated recipient; v4: PBKW memory-parameter domain (all 64-bit values)",
+            "thorough": "adds what has a recorded pass (see harnesses_built_but_not_registered): secret keys, other backends, PBKDF2-backed PBKW round trips"},
     outside=["PBKW round trip / tamper / RNG harnesses for paseto-v2, -v4 and -v4-sodium (unresolved engine discrepancy on the zerocopy cost-parameter struct, DESIGN.md 7.2)", "paseto-v3-aws-lc: verification of public tokens and PKE are not reached (symbolic execution of the FFI wrappers' verify side does not finish, DESIGN.md 7.6); paseto-v1 public tokens and PKE (RSA is not modelled)", "passwords longer than 2 bytes (they only enter the KDF oracle)", "the real KDFs' cost/behaviour"], models=L2_MODELS, assumptions=L2_ASSUME)
 
 PROPS["C06"] = Prop(
     "C06", _collect("C06"),
     explanation="From a genuinely produced PIE / PBKW / PKE blob each tamper class must make unwrap/unseal return Err: one symbolic bit anywhere (tag, nonce, salt, parameters, ephemeral key, ciphertext), header relabel local<->secret, another wrapping key / password (same length, longer, shorter) / recipient, truncation, extension.",
     functions=["<backend>::core::{pie_wrap, pw_wrap, pke}::* incl. auth()"],
-    bounds={"quick": "per backend: PIE bit + relabel, PBKW bit + other password, PKE bit", "thorough": "all classes"},
+    bounds={"quick": "v4: PIE bit + relabel, PKE bit; v3: PIE bit", "thorough": "adds the classes and backends with a recorded pass (see harnesses_built_but_not_registered)"},
     outside=["PBKW round trip / tamper / RNG harnesses for paseto-v2, -v4 and -v4-sodium (unresolved engine discrepancy on the zerocopy cost-parameter struct, DESIGN.md 7.2)", "paseto-v3-aws-lc: verification of public tokens and PKE are not reached (symbolic execution of the FFI wrappers' verify side does not finish, DESIGN.md 7.6); paseto-v1 public tokens and PKE (RSA is not modelled)", "relabel to another version's header (same code with another constant; the version prefix is part of the MAC transcript shown by the bit/relabel classes)"],
     models=L2_MODELS, assumptions=L2_ASSUME)
 
@@ -731,7 +731,7 @@ PROPS["C10"] = Prop(
     + [h for h in _collect("C06") if "relabel" in h.name],
     explanation="(i) every parser accepts only strings that start with exactly its own version and kind header followed by canonical base64url (the C09 API harnesses on fully symbolic strings); (ii) the header constants are pairwise distinct and prefix-free, and a symbolic 12-byte string is accepted by at most one of six parsers; (iii) key bytes of another kind's length are rejected (C08 length harnesses); (iv) an authenticated blob whose kind header is relabelled local<->secret fails to unwrap (C06 relabel classes).",
     functions=["paseto_core::key::{KeyType, SealingKey} constants", "every FromStr of paseto-core", "<backend>::HasKey::decode", "<backend>::{pie_unwrap_key, pw_unwrap_key}"],
-    bounds={"quick": "header table; 16-byte cross-parser string; header+3 character strings per parser; v4 relabel classes", "thorough": "all backends' length and relabel harnesses"},
+    bounds={"quick": "header table (prefix-freeness); every string of exactly header length for KeyText<Local>, SealedKey and SealedToken (symbolic header); v4 local key codec; v3/v4 PKE key wrong-length (32 B); v4 PIE relabel", "thorough": "symbolic-header strings for every parser; all backends' length and relabel harnesses that have a recorded pass (see harnesses_built_but_not_registered)"},
     outside=["relabel to another version's header (the version prefix is a constant of the same MAC transcript)", "token purposes: local and public token payloads go to different key types, which the type system separates"],
     models=PROPS["C09"].models + L2_MODELS, assumptions=L2_ASSUME)
 
